@@ -9,12 +9,17 @@ module Bp = struct
   let untoks s = if s = "" then [] else List.map str_of_tok (String.split_on_char ',' s)
 
   (* str B cwd p *)
-  let str_line b cwd p =
+  (* NewWithErr: basePath = baseFS.Abs(given); the base's current directory at construction is "/" *)
+  let base_of given = abs Linux [n_of_int 47] given
+
+  let str_line given cwd p =
+    let b = base_of given in
     let tb = to_base_path Linux b cwd p in
     let ab = match tb with
       | Some x -> t (from_base_safe Linux b (abs Linux cwd x))   (* base.Abs(x) = avfs.Abs(base, x, base cwd) *)
       | None -> "PANIC" in
-    Printf.sprintf "tb=%s ab=%s fb=%s wd=%s" (opt tb) ab (opt (from_base_path Linux b p)) (opt (bp_getwd Linux b cwd))
+    Printf.sprintf "tb=%s ab=%s fb=%s wd=%s fe=%s,%s,%s" (opt tb) ab (opt (from_base_path Linux b p)) (opt (bp_getwd Linux b cwd))
+      (t (from_base_safe Linux b p)) (t (from_base_safe Linux b p)) (t (from_base_safe Linux b (given @ p)))
 
   let forward = ["Stat"; "Lstat"; "Abs"; "Mkdir"; "MkdirAll"; "Chmod"; "Chown"; "Lchown"; "Chtimes"; "Truncate";
                  "Chdir"; "Remove"; "RemoveAll"; "Sub"; "Link"; "Rename"; "Getwd"]
@@ -77,7 +82,7 @@ module Bp = struct
     | head :: ops ->
       (match split_ws head with
        | ["bpfs"; _; bt] ->
-         let b = str_of_tok bt in
+         let b = base_of (str_of_tok bt) in
          String.concat " | " ("bpfs" :: List.map (op_line b) ops)
        | _ -> "BADLINE")
 
